@@ -6,6 +6,8 @@
   files carry 5 or 6), under which Python's `round(value, 8)` is the identity on the exact value.
 -/
 import ShelxModel.C09
+import ShelxModel.Extracted.C09Src
+import Mathlib.Tactic.NormNum
 import Mathlib.Tactic.Ring
 import Mathlib.Tactic.Linarith
 import Mathlib.Tactic.FieldSimp
@@ -252,5 +254,51 @@ example : occupancy [1, 0.6, 0.7] (-30.5) = 0.15 := by
 example : decode (-30.5) = (-3, -0.5) := by decide +kernel
 example : decode 9.5 = (1, -0.5) := by decide +kernel
 example : occupancy [1, 0.6, 0.7] 30.5 + occupancy [1, 0.6, 0.7] (-30.5) = 0.5 := by decide +kernel
+
+/-! ## the tie to the traced source (`ShelxModel/Extracted/C09Src.lean`, regenerated on every run)
+
+  `extract/trace_c09.py` reads a file whose occupation code and free variables are symbolic through
+  `Shelxfile.read_string` and traces `Atom.occupancy` / `sum_formula_exact_as_dict`. `floor((code + 5) / 10)` is a branch
+  event: each traced program is the occupancy on the branch `m` its sample selects, and the theorem carries that branch
+  condition as hypothesis. For ALL codes on the branch and ALL free-variable values the traced program is the model
+  function `occupancy` (and hence, by `occ_eq_rule`, the SHELXL rule). -/
+
+theorem src_occM3 (sof fv1 fv2 fv3 : Rat) (h : ((sof + 5) / 10).floor = 3) :
+    Src.occM3 round8 sof fv3 = occupancy [fv1, fv2, fv3] sof := by
+  simp [Src.occM3, occupancy, splitCode, fvGet, h]; norm_num
+
+theorem src_occM2 (sof fv1 fv2 fv3 : Rat) (h : ((sof + 5) / 10).floor = 2) :
+    Src.occM2 round8 sof fv2 = occupancy [fv1, fv2, fv3] sof := by
+  simp [Src.occM2, occupancy, splitCode, fvGet, h]; norm_num
+
+theorem src_occMm3 (sof fv1 fv2 fv3 : Rat) (h : ((sof + 5) / 10).floor = -3) :
+    Src.occMm3 round8 sof fv3 = occupancy [fv1, fv2, fv3] sof := by
+  simp [Src.occMm3, occupancy, splitCode, fvGet, h]; norm_num
+
+theorem src_occMm2 (sof fv1 fv2 fv3 : Rat) (h : ((sof + 5) / 10).floor = -2) :
+    Src.occMm2 round8 sof fv2 = occupancy [fv1, fv2, fv3] sof := by
+  simp [Src.occMm2, occupancy, splitCode, fvGet, h]; norm_num
+
+theorem src_occM1 (sof : Rat) (fv : List Rat) (h : ((sof + 5) / 10).floor = 1) :
+    Src.occM1 round8 sof = occupancy fv sof := by
+  simp [Src.occM1, occupancy, splitCode, h]
+
+theorem src_occM0 (sof : Rat) (fv : List Rat) (h : ((sof + 5) / 10).floor = 0) :
+    Src.occM0 round8 sof = occupancy fv sof := by
+  simp [Src.occM0, occupancy, splitCode, h]
+
+theorem src_occMm1 (sof : Rat) (fv : List Rat) (h : ((sof + 5) / 10).floor = -1) :
+    Src.occMm1 round8 sof = occupancy fv sof := by
+  simp [Src.occMm1, occupancy, splitCode, h]
+
+/-- the branch hypotheses are satisfiable: the sample codes of the targets -/
+example : (((30.75 : Rat) + 5) / 10).floor = 3 ∧ (((-30.75 : Rat) + 5) / 10).floor = -3 ∧ (((10.5 : Rat) + 5) / 10).floor = 1 := by
+  decide +kernel
+
+theorem src_sumExactCCO (s1 s2 s3 fv1 fv2 fv3 : Rat)
+    (h1 : ((s1 + 5) / 10).floor = 2) (h2 : ((s2 + 5) / 10).floor = -2) (h3 : ((s3 + 5) / 10).floor = 3) :
+    Src.sumExactCCO round8 s1 s2 s3 fv2 fv3
+      = (sumExact [fv1, fv2, fv3] ["C", "H", "O"] [⟨"C", false, s1⟩, ⟨"C", false, s2⟩, ⟨"O", false, s3⟩]).map (·.2) := by
+  simp [Src.sumExactCCO, sumExact, sumInner, dictAdd, dictHas, occupancy, splitCode, fvGet, h1, h2, h3]; norm_num
 
 end Shelx.C09
